@@ -5,7 +5,9 @@ from arrays import mk_universe
 import heapdrv
 
 ID = "C13"
-COQ_MODULE = "Corr.HeapC"
+COQ_MODULE = "Corr.C13"
+COQ_CHECK = "C13.check"
+COQ_CASE_TYPE = "C13.case"
 SHARD = 60
 RULE = ("seeded random histories (quick 300 x <= 9 steps, thorough 3000 x <= 20) over constructors (right and wrong "
         "shapes), copy, full_like, + - * / ** min max with arrays and numbers, neg/abs/sign, sum_to, sum_over, cast_to, "
@@ -28,10 +30,54 @@ def generate(tier, rng):
         uni = unis[h % 2]
         length = 2 + rng.randrange(maxlen - 1)
         cases.append(dict(stream="history", uni=uni, abstract=heapdrv.gen_history(rng, uni, length)))
+    # constructor validators of stocks and lifetime models
+    import itertools
+    base = dict(t=dict(letter="t", name="time", items=[2000, 2001, 2002]), r=dict(letter="r", name="region", items=["EU", "US"]))
+    other = dict(t=dict(letter="t", name="time", items=[2000, 2001, 2002, 2003]), r=dict(letter="r", name="region", items=["EU", "CN"]),
+                 r3=dict(letter="r", name="region", items=["EU", "US", "CN"]))
+    variants = {"same": [base["t"], base["r"]], "longer time": [other["t"], base["r"]], "other items": [base["t"], other["r"]],
+                "more items": [base["t"], other["r3"]], "permuted": [base["r"], base["t"]], "fewer dims": [base["t"]]}
+    for cls in ("SimpleFlowDrivenStock", "InflowDrivenDSM", "StockDrivenDSM"):
+        for which in ("stock", "inflow", "outflow", "lifetime"):
+            if which == "lifetime" and cls == "SimpleFlowDrivenStock":
+                continue
+            for vn, vd in variants.items():
+                cases.append(dict(stream="validators", kind="stock_ctor", cls=cls, dims=[base["t"], base["r"]], which=which, variant=vn, vdims=vd, time="t"))
+        cases.append(dict(stream="validators", kind="stock_ctor", cls=cls, dims=[base["r"], base["t"]], which=None, variant="time not first", vdims=None, time="t"))
+    for lt in ("FixedLifetime", "NormalLifetime", "LogNormalLifetime", "WeibullLifetime", "FoldedNormalLifetime"):
+        for dn, dd_ in (("time first", [base["t"], base["r"]]), ("time second", [base["r"], base["t"]]), ("time only", [base["t"]])):
+            cases.append(dict(stream="validators", kind="lifetime_ctor", lt=lt, dims=dd_, dname=dn, time="t"))
     return cases
 
 
+def _ds(dims):
+    import flodym as fd
+    return fd.DimensionSet(dim_list=[fd.Dimension(name=d["name"], letter=d["letter"], items=list(d["items"])) for d in dims])
+
+
 def run_impl(case):
+    import flodym as fd
+    if case.get("kind") == "stock_ctor":
+        dims = _ds(case["dims"])
+        kw = dict(dims=dims, time_letter=case["time"], name="s")
+        cls = getattr(fd, case["cls"])
+        try:
+            if cls is not fd.SimpleFlowDrivenStock:
+                ld = _ds(case["vdims"]) if case["which"] == "lifetime" else dims
+                kw["lifetime_model"] = fd.FixedLifetime(dims=ld, time_letter=[d["letter"] for d in (case["vdims"] if case["which"] == "lifetime" else case["dims"])][0] if False else case["time"], mean=5)
+            if case["which"] in ("stock", "inflow", "outflow"):
+                kw[case["which"]] = fd.StockArray(dims=_ds(case["vdims"]))
+            st = cls(**kw)
+            shapes = [list(getattr(st, q).values.shape) for q in ("stock", "inflow", "outflow")]
+            return dict(kind="ctor", accepted=True, shapes=shapes, want=list(dims.shape))
+        except Exception as e:  # noqa
+            return dict(kind="ctor", accepted=False, exc=type(e).__name__, msg=str(e)[:120])
+    if case.get("kind") == "lifetime_ctor":
+        try:
+            getattr(fd, case["lt"])(dims=_ds(case["dims"]), time_letter=case["time"])
+            return dict(kind="ctor", accepted=True)
+        except Exception as e:  # noqa
+            return dict(kind="ctor", accepted=False, exc=type(e).__name__, msg=str(e)[:120])
     conc, obs = heapdrv.drive(case["uni"], case["abstract"])
     return dict(kind="history", concrete=conc, obs=obs)
 
@@ -44,6 +90,20 @@ WRONG_SHAPE_OPS = ("new", "set_values")
 
 
 def oracle(case, ob):
+    if case.get("kind") == "stock_ctor":
+        must_reject = case["variant"] != "same"
+        if must_reject and ob["accepted"]:
+            return f"{case['cls']} accepted {case['which'] or 'dims'} with '{case['variant']}' dimensions (array shapes {ob.get('shapes')} in a stock of shape {ob.get('want')})"
+        if not must_reject and not ob["accepted"]:
+            return f"{case['cls']} refused matching {case['which']}: {ob['exc']}: {ob['msg'][:60]}"
+        return None
+    if case.get("kind") == "lifetime_ctor":
+        must_reject = case["dname"] == "time second"
+        if must_reject and ob["accepted"]:
+            return f"{case['lt']} accepted dimensions whose time dimension is not first"
+        if not must_reject and not ob["accepted"]:
+            return f"{case['lt']} refused valid dimensions ({case['dname']}): {ob['exc']}: {ob['msg'][:60]}"
+        return None
     uni = ob["concrete"]["uni"]
     for si, (c, o) in enumerate(zip(ob["concrete"]["steps"], ob["obs"])):
         tag = f"step {si} {c['op']}"
@@ -74,15 +134,23 @@ def oracle(case, ob):
 
 
 def failure_key(case, obs, msg):
-    return msg.split(":", 1)[1][:25]
+    return msg.split(":", 1)[1][:25] if ":" in msg else msg[:40]
 
 
 def to_coq(case, ob):
-    return heapdrv.cq_history(ob["concrete"], ob["obs"])
+    from arrays import cq_dimset
+    from common import cq_bool, cq_nat, cq_list, cq_opt, letter_code
+    if case.get("kind") == "stock_ctor":
+        arrs = [cq_dimset(case["vdims"])] if case["which"] in ("stock", "inflow", "outflow") else []
+        lt = "None" if case["cls"] == "SimpleFlowDrivenStock" else f"(Some {cq_dimset(case['vdims'] if case['which'] == 'lifetime' else case['dims'])})"
+        return f"(CStockCtor {cq_dimset(case['dims'])} {cq_list(arrs)} {lt} {cq_nat(letter_code(case['time']))} {cq_bool(ob['accepted'])})"
+    if case.get("kind") == "lifetime_ctor":
+        return f"(CLifetimeCtor {cq_dimset(case['dims'])} {cq_nat(letter_code(case['time']))} {cq_bool(ob['accepted'])})"
+    return "(CHist " + heapdrv.cq_history(ob["concrete"], ob["obs"]) + ")"
 
 
 def nontrivial(case):
-    return len(case["abstract"]) >= 4
+    return case.get("kind") is not None or len(case["abstract"]) >= 4
 
 
 SIGNATURES = {}
